@@ -12,6 +12,8 @@
 //	                    interpreter of the *extracted* schema produces, after checking that their double SHA-256
 //	                    is what ledger.MakeBlockID returns                             -> <hex>
 //	vb <base> m=<mut>   Ledger.VerifyBlock on a node-formatted block after one mutation -> accept|reject|n/a
+//	                    known=1: the honest block was confirmed on this ledger before; stored=1: the mutated block
+//	                    extends the tip of the ledger and, if it passes, is confirmed and read back from storage
 //
 // C07 op lines: see tx.go.
 package main
@@ -61,7 +63,7 @@ func main() {
 		out.Emit(line, r)
 		out.Case(line, nontrivial)
 		kind := strings.Fields(line)[0]
-		if kind == "vb" || kind == "vt" || kind == "sig" {
+		if kind == "vb" || kind == "vt" || kind == "sig" || kind == "vc" {
 			out.Count(kind + ":" + r)
 		} else {
 			out.Count(kind)
@@ -83,7 +85,9 @@ func main() {
 			}
 		}
 	}
-	gen(args.Tier, xvlib.NewRng(args.Seed), run)
+	// xvlib.NewRng(s) walks one global sequence from offset s: neighbouring seeds would meet after a few draws
+	// (generation re-synchronises at case boundaries) and produce the same run; keep the seeds 2^32 draws apart
+	gen(args.Tier, xvlib.NewRng(args.Seed<<32|0x5eed), run)
 }
 
 func safeExec(exec func(string, bool) string, line string) (res string) {
